@@ -475,11 +475,23 @@ def rerun_and_filter(rec):
 
 
 def confirm_replay(path):
+    """Replay the recorded case twice: identical observations are required before a violation is
+    reported. A case that only fails in the context of the whole run (state leaking between
+    definitions, e.g. a cache) is confirmed by re-running the property's steps and finding the
+    same key again."""
     a = replay_once(path)
     if a is None:
         return None
     b = replay_once(path)
-    return a == b and len(a) > 0
+    if a == b and len(a) > 0:
+        return True
+    with open(path) as f:
+        rec = json.load(f)
+    again = rerun_and_filter(rec)
+    if again["violations"]:
+        print(f"NOTE: {os.path.basename(path)} does not fail in isolation but fails again in the full run (history-dependent)")
+        return True
+    return False
 
 
 def replay(path):
